@@ -254,10 +254,13 @@ def fire (txs : List Tx) (lks : List Locks) (s : Sim) (i : Nat) : Sim :=
       let (_, l') := stepOn i (fun _ => true) step src st.loc
       { s with sts := s.sts.set i { st with pc := st.pc + 1, loc := l' } }
     | .roBase =>
-      -- `base` is set at creation for the first virtual state, and for the second one when the
-      -- first was created committed (no requests); otherwise realized at the first access
+      -- `realizeBaseInLock`: `base` is set at creation for the first virtual state, and for the
+      -- second one when the first was created committed (no requests); otherwise it is
+      -- `parent.committed`: the snapshot a world write locker took at its Commit, or else the
+      -- snapshot `parent.Realize()` takes of the real state now
       let atCreation := i = 0 || (i = 1 && (txs.getD 0 ⟨[], []⟩).reqs.isEmpty)
-      let b := st.base.getD (if atCreation then s.init else s.real)
+      let parentSnap := if (lks.getD (i - 1) ⟨0, []⟩).world = 2 then (s.snaps.getD (i - 1) none).getD s.real else s.real
+      let b := st.base.getD (if atCreation then s.init else parentSnap)
       let (_, l') := stepOn i (fun _ => true) step b st.loc
       { s with sts := s.sts.set i { st with pc := st.pc + 1, loc := l', base := some b } }
     | _ =>
